@@ -183,7 +183,7 @@ def worker(shard, nshards, tier, seed):
 
 
 def run(tier, seed):
-    acc = parallel(worker, tier, seed)
+    acc = parallel(worker, tier, seed, warm_pass=True)
     cov = {
         "states": acc.n["schemas"] + acc.n["variants"],
         "transitions": acc.n["comparisons"],
